@@ -143,6 +143,10 @@ class Ctx:
             "tlc_runs": self.tlc_runs,
             "known_findings_seen": {k: v["count"] for k, v in self.known_hits.items()},
         }
+        if self.states < 1 or self.transitions < 1:
+            # no state-space run in this check: fall back to the generic coverage keys
+            cov.pop("states")
+            cov.pop("transitions")
         if self.exhaustive is not None:
             cov["exhaustive"] = self.exhaustive
         cov.update(self.extra)
